@@ -1,15 +1,16 @@
 #!/bin/bash
-# tools/confirm_all.sh <Cxx> <A|B|BASE>  -- confirm one seeded change in a scratch worktree: demo exit codes without / with the
+# tools/confirm_all.sh <Cxx> <A|B|BASE>  -- confirm one seeded change (seeded/Cxx-L/{patch.diff,demo.py}) in a scratch worktree OF THE COMMIT THE SEED WAS WRITTEN FOR
+# (pass SEED_BASE=<commit>, default HEAD; seeds were confirmed against 3c7e7af and earlier): demo exit codes without / with the
 # patch and the list of failing tests of the whole pinned suite with the patch applied (BASE: unpatched tree).
 export OMP_NUM_THREADS=1 MKL_NUM_THREADS=1
-P=$1; L=$2; D=/verif/seeded/_incoming/$P; OUT=/tmp/seedconf; mkdir -p $OUT
+P=$1; L=$2; D=/verif/seeded/$P-$L; OUT=/tmp/seedconf; mkdir -p $OUT
 W=/tmp/sc_${P}_$L
-git -C /repo worktree add -q --detach $W HEAD || exit 2
+git -C /repo worktree add -q --detach $W ${SEED_BASE:-HEAD} || exit 2
 cd $W
 if [ "$L" != BASE ]; then
-  r0=$(PYTHONPATH=$W timeout 900 /venv/bin/python -W ignore $D/demo_$L.py >$OUT/${P}_$L.demo0 2>&1; echo $?)
-  if ! git apply $D/$L.diff 2>$OUT/${P}_$L.apply; then echo "$P $L PATCH-FAIL" > $OUT/${P}_$L.result; cd /; git -C /repo worktree remove --force $W; exit 0; fi
-  r1=$(PYTHONPATH=$W timeout 900 /venv/bin/python -W ignore $D/demo_$L.py >$OUT/${P}_$L.demo1 2>&1; echo $?)
+  r0=$(PYTHONPATH=$W timeout 900 /venv/bin/python -W ignore $D/demo.py >$OUT/${P}_$L.demo0 2>&1; echo $?)
+  if ! git apply $D/patch.diff 2>$OUT/${P}_$L.apply; then echo "$P $L PATCH-FAIL" > $OUT/${P}_$L.result; cd /; git -C /repo worktree remove --force $W; exit 0; fi
+  r1=$(PYTHONPATH=$W timeout 900 /venv/bin/python -W ignore $D/demo.py >$OUT/${P}_$L.demo1 2>&1; echo $?)
   files=$(git diff --name-only | tr '\n' ' ')
 else r0=-; r1=-; files=-; fi
 PYTHONPATH=$W timeout 7200 /venv/bin/python -m pytest -q -p no:cacheprovider --timeout=900 --junitxml=$OUT/${P}_$L.xml test >$OUT/${P}_$L.pytest 2>&1
